@@ -441,6 +441,25 @@ impl KindFn for Cell<'_> {
                 let idx: Vec<usize> = (0..self.n).step_by(2).collect();
                 let got: Vec<Result<S, Error>> = open()?.iter_shapes_as::<S>().step_by(2).collect();
                 want(&idx, got, format!("iter_shapes_as::<{}>().step_by(2) (index: {})", s_ty.name(), with_shx))?;
+                // last() / count(): the other consuming methods an iterator may override; on a fresh reader and after a
+                // partial pass through the same iterator they answer what the converted generic read answers
+                for k in [0, 1, self.n - 1, self.n] {
+                    let mut r = open()?;
+                    let mut it = r.iter_shapes_as::<S>();
+                    for _ in 0..k {
+                        let _ = it.next();
+                    }
+                    let got: Vec<Result<S, Error>> = it.last().into_iter().collect();
+                    let idx: Vec<usize> = if k < self.n { vec![self.n - 1] } else { vec![] };
+                    want(&idx, got, format!("iter_shapes_as::<{}>(): {} next() calls then last() (index: {})", s_ty.name(), k, with_shx))?;
+                    let mut r = open()?;
+                    let mut it = r.iter_shapes_as::<S>();
+                    for _ in 0..k {
+                        let _ = it.next();
+                    }
+                    let c = it.count();
+                    ensure!(c == self.n - k, "typed-vs-generic", "iter_shapes_as::<{}>(): {} next() calls then count() = {}, the generic read has {} records left (index: {})", s_ty.name(), k, c, self.n - k, with_shx);
+                }
             }
             // random access done generically on one reader and typed on another: the same shape, and whatever is read in
             // bulk afterwards (typed on both) is the same too
